@@ -5,6 +5,7 @@ import (
 	"errors"
 	"fmt"
 	"io"
+	"os"
 	"strings"
 	"testing"
 	"unicode/utf8"
@@ -37,12 +38,14 @@ type cursor interface {
 }
 
 var errBoom = errors.New("boom")
+var errWrapsEOF = fmt.Errorf("connection reset: %w", io.EOF)
 
 // plainReader delivers data in chunks and optionally fails after failAt bytes; it has no Bytes method.
 type plainReader struct {
 	data     []byte
 	chunk    int
-	failAt   int // -1: never
+	failAt   int   // -1: never
+	failErr  error // the error it fails with (errBoom when nil)
 	eofWith  bool
 	off      int
 	scribble bool // uses the rest of p as scratch space (the io.Reader contract allows that)
@@ -61,6 +64,9 @@ func (r *plainReader) Read(p []byte) (n int, err error) {
 
 func (r *plainReader) read(p []byte) (int, error) {
 	if r.failAt >= 0 && r.off >= r.failAt {
+		if r.failErr != nil {
+			return 0, r.failErr
+		}
 		return 0, errBoom
 	}
 	if r.off >= len(r.data) {
@@ -123,7 +129,7 @@ type subject struct {
 
 func build(t *rapid.T, data []byte) *subject {
 	useInput := rapid.Bool().Draw(t, "useInput")
-	ctor := rapid.SampledFrom([]string{"bytes-exact", "bytes-spare", "string", "reader-plain", "reader-bytes", "reader-fail", "reader-nil"}).Draw(t, "ctor")
+	ctor := rapid.SampledFrom([]string{"bytes-exact", "bytes-spare", "string", "reader-plain", "reader-bytes", "reader-fail", "reader-nil", "reader-plain", "reader-bytes", "bytes-spare", "reader-file"}).Draw(t, "ctor")
 	s := &subject{kind: ctor}
 	mk := func(b []byte) cursor {
 		if useInput {
@@ -181,9 +187,25 @@ func build(t *rapid.T, data []byte) *subject {
 		s.data = data
 	case "reader-fail":
 		r := &plainReader{data: data, chunk: rapid.IntRange(1, 8).Draw(t, "chunk"), failAt: rapid.IntRange(0, len(data)).Draw(t, "failAt"), scribble: rapid.Bool().Draw(t, "scribble")}
+		// the reader's own error, whatever it is: also one that wraps io.EOF or looks like an early end
+		r.failErr = rapid.SampledFrom([]error{errBoom, errWrapsEOF, io.ErrUnexpectedEOF, io.ErrClosedPipe}).Draw(t, "failErr")
 		s.c = mkr(r)
 		s.data = nil
-		s.err = errBoom
+		s.err = r.failErr
+	case "reader-file":
+		// a file the caller has read a header from: the input is what the reader still delivers
+		f, err := os.CreateTemp("", "c12-*")
+		if err != nil {
+			t.Fatalf("harness: %v", err)
+		}
+		header := rapid.SampledFrom([]string{"", "HEADER\n", strings.Repeat("h", 600)}).Draw(t, "header")
+		f.Write([]byte(header))
+		f.Write(data)
+		f.Seek(int64(len(header)), io.SeekStart)
+		s.c = mkr(f)
+		f.Close()
+		os.Remove(f.Name())
+		s.data = data
 	case "reader-nil":
 		s.c = mkr(nil)
 		s.data = nil
@@ -207,7 +229,7 @@ func (s *subject) checkBacking(t *rapid.T, restored bool) {
 }
 
 func TestProp_Cursor(t *testing.T) {
-	ev.Describe("cursor", "stateful (rapid t.Repeat): subject in {parse.Input, buffer.Lexer} x constructor {bytes cap==len, bytes with spare capacity (guard bytes 0xAA..), string, plain reader (chunked, (n,EOF) or (0,EOF)), reader with Bytes(), reader failing after k bytes, nil reader} over fragment data rich in multi-byte/truncated runes and NUL; actions Peek/PeekRune/PeekErr/Err/Move/MoveRune/Pos/Rewind/Lexeme/Skip/Shift/Offset/Bytes/Len/Reset within the documented contract, Restore last; oracle: flat model (data,start,pos), utf8.DecodeRune on valid positions, backing-array snapshot; non-trivial = data of >= 2 bytes, >= 8 actions incl. a Rewind or Shift and a PeekRune/MoveRune within 3 bytes of the end")
+	ev.Describe("cursor", "stateful (rapid t.Repeat): subject in {parse.Input, buffer.Lexer} x constructor {bytes cap==len, bytes with spare capacity (guard bytes 0xAA..), string, plain reader (chunked, (n,EOF) or (0,EOF)), reader with Bytes(), reader failing after k bytes with its own error (also one that wraps io.EOF), *os.File behind a header that was read, nil reader} over fragment data rich in multi-byte/truncated runes and NUL; actions Peek/PeekRune/PeekErr/Err/Move/MoveRune/Pos/Rewind/Lexeme/Skip/Shift/Offset/Bytes/Len/Reset within the documented contract, Restore last, then two more inputs are read and every slice handed out is compared again; oracle: flat model (data,start,pos), utf8.DecodeRune on valid positions, backing-array snapshot; non-trivial = data of >= 2 bytes, >= 8 actions incl. a Rewind or Shift and a PeekRune/MoveRune within 3 bytes of the end")
 	ev.Check(t, 20000, func(t *rapid.T) {
 		data := genData(t)
 		s := build(t, data)
@@ -232,7 +254,13 @@ func TestProp_Cursor(t *testing.T) {
 			}
 			return nil
 		}
+		type heldSlice struct {
+			name  string
+			b, cp []byte
+		}
+		var helds []heldSlice
 		checkSlice := func(name string, got []byte, a, b int) {
+			helds = append(helds, heldSlice{name, got, append([]byte(nil), got...)})
 			if !bytes.Equal(got, d[a:b]) {
 				t.Fatalf("%s: %s = %q, want %q (start %d pos %d) after %v", s.kind, name, got, d[a:b], a, b, hist)
 			}
@@ -411,6 +439,17 @@ func TestProp_Cursor(t *testing.T) {
 			}
 			s.checkBacking(t, true)
 		}
+		// what the input handed out stays what it was when the input is given back and other inputs are read afterwards
+		other := bytes.Repeat([]byte("#"), len(d)+9)
+		o1 := parse.NewInput(&plainReader{data: other, chunk: 4096, failAt: -1})
+		o2 := buffer.NewLexer(&plainReader{data: other, chunk: 7, failAt: -1})
+		for _, h := range helds {
+			if !bytes.Equal(h.b, h.cp) {
+				t.Fatalf("%s: the slice %q returned by %s reads %q after Restore and two later inputs (history %v)", s.kind, h.cp, h.name, h.b, hist)
+			}
+		}
+		o1.Restore()
+		o2.Restore()
 		ev.Case("cursor", s.kind+"|"+string(d)+"|"+strings.Join(hist, ","), nact >= 8 && sawRewShift && sawRuneEnd && len(d) >= 2, s.kind)
 	})
 }
